@@ -194,3 +194,129 @@ func (self Compiler) importedName(i int, name string) string {
     ensures @own-function-first haskey(self.modules[self.currModule], input) ==> ret1 && ret0 == self.modules[self.currModule][input].MangledName
     ensures @only-own-or-imported ret1 && !haskey(self.modules[self.currModule], input) ==> exists i in 0..len(self.analyzedSource[self.currModule].Imports) :: exists j in 0..len(self.analyzedSource[self.currModule].Imports[i].ToImport) :: self.importsFn(i, j, input) && ret0 == self.importedName(i, input)
 @*/
+
+// ---------------------------------------------------------------------------
+// Scope discipline of the code generator (C01 lexical scoping, C11 loop
+// stack, C08 source-map alignment, C15 per-module root scopes). A scope is a
+// map from source names to storage names; the frame clauses below say which
+// scope maps a function may change: `only-current-scope` = no map that existed
+// before the call other than the innermost scope changes its bindings;
+// `no-scope-changed` = none at all.
+
+// scopesWF: there is a current scope and it is the innermost one.
+func (self Compiler) scopesWF() bool {
+	return len(self.varScopes) >= 1 && self.currScope == &self.varScopes[len(self.varScopes)-1]
+}
+
+// b2i: a condition as a split value.
+func b2i(b bool) int {
+	if b {
+		return 1
+	}
+	return 0
+}
+
+/*@ func (self *Compiler) pushScope
+    serves C01, C15
+    requires self.scopesWF()
+    ensures @pushed self.scopesWF() && len(self.varScopes) == old(len(self.varScopes))+1 && fresh(self.varScopes[len(self.varScopes)-1])
+    ensures @outer-kept forall i in 0..old(len(self.varScopes)) :: samemap(self.varScopes[i], old(self.varScopes[i]))
+    ensures @no-scope-changed forall m map[string]string in allocated :: samecontent(m, old(m))
+    ensures @rest-kept len(self.loops) == old(len(self.loops)) && self.currFn == old(self.currFn) && self.currModule == old(self.currModule) && samemap(self.modules, old(self.modules))
+@*/
+
+/*@ func (self *Compiler) popScope
+    serves C01, C15
+    requires self.scopesWF() && len(self.varScopes) >= 2
+    ensures @popped self.scopesWF() && len(self.varScopes) == old(len(self.varScopes))-1
+    ensures @outer-kept forall i in 0..len(self.varScopes) :: samemap(self.varScopes[i], old(self.varScopes[i]))
+    ensures @no-scope-changed forall m map[string]string in allocated :: samecontent(m, old(m))
+    ensures @rest-kept len(self.loops) == old(len(self.loops)) && self.currFn == old(self.currFn) && self.currModule == old(self.currModule) && samemap(self.modules, old(self.modules))
+@*/
+
+/*@ func (self Compiler) getMangled
+    serves C01, C15
+    requires self.scopesWF()
+    ensures @innermost-binding ret1 ==> exists i in 0..len(self.varScopes) :: haskey(self.varScopes[i], input) && self.varScopes[i][input] == ret0 && forall j in i+1..len(self.varScopes) :: !haskey(self.varScopes[j], input)
+    ensures @unbound !ret1 ==> forall i in 0..len(self.varScopes) :: !haskey(self.varScopes[i], input)
+    loop 1 invariant -1 <= i && i < len(self.varScopes)
+    loop 1 invariant forall j in i+1..len(self.varScopes) :: !haskey(self.varScopes[j], input)
+    loop 1 decreases i + 1
+@*/
+
+/*@ func (self *Compiler) mangleVar
+    serves C01, C15
+    assume-safety
+    requires self.scopesWF()
+    ensures @bound-in-current-scope self.scopesWF() && len(self.varScopes) == old(len(self.varScopes)) && haskey(self.varScopes[len(self.varScopes)-1], input) && self.varScopes[len(self.varScopes)-1][input] == result
+    ensures @scopes-kept forall i in 0..len(self.varScopes) :: samemap(self.varScopes[i], old(self.varScopes[i]))
+    ensures @only-current-scope forall m map[string]string in allocated :: !samemap(m, old(self.varScopes[len(self.varScopes)-1])) ==> samecontent(m, old(m))
+    ensures @rest-kept len(self.loops) == old(len(self.loops)) && self.currFn == old(self.currFn) && self.currModule == old(self.currModule) && samemap(self.modules, old(self.modules))
+@*/
+
+/*@ func (self *Compiler) pushLoop
+    serves C11
+    ensures @pushed len(self.loops) == old(len(self.loops))+1 && self.loops[len(self.loops)-1] == l
+    ensures @scopes-kept self.scopesWF() == old(self.scopesWF()) && len(self.varScopes) == old(len(self.varScopes)) && self.currFn == old(self.currFn) && self.currModule == old(self.currModule) && samemap(self.modules, old(self.modules))
+    ensures @no-scope-changed forall m map[string]string in allocated :: samecontent(m, old(m))
+@*/
+
+// Expressions never bind a name in the scope they are compiled in (blocks,
+// function literals, match arms push their own): assumed for compileExpr as a
+// whole here; the statement level below is verified against it.
+
+/*@ func (self *Compiler) compileExpr
+    serves C01, C11, C15
+    trusted
+    requires self.scopesWF() && self.aligned()
+    ensures @scope-stack-balanced self.scopesWF() && len(self.varScopes) == old(len(self.varScopes)) && forall i in 0..len(self.varScopes) :: samemap(self.varScopes[i], old(self.varScopes[i]))
+    ensures @loop-stack-balanced len(self.loops) == old(len(self.loops))
+    ensures @same-function self.aligned() && self.currFn == old(self.currFn) && self.currModule == old(self.currModule) && samemap(self.modules, old(self.modules)) && self.CurrFn() == old(self.CurrFn())
+    ensures @no-scope-changed forall m map[string]string in allocated :: samecontent(m, old(m))
+@*/
+
+/*@ func (self *Compiler) compileLetStmt
+    serves C01, C15
+    assume-safety
+    requires self.scopesWF() && self.aligned()
+    ensures @scope-stack-balanced self.scopesWF() && len(self.varScopes) == old(len(self.varScopes)) && forall i in 0..len(self.varScopes) :: samemap(self.varScopes[i], old(self.varScopes[i]))
+    ensures @loop-stack-balanced len(self.loops) == old(len(self.loops))
+    ensures @same-function self.aligned() && self.currFn == old(self.currFn) && self.currModule == old(self.currModule) && samemap(self.modules, old(self.modules)) && self.CurrFn() == old(self.CurrFn())
+    ensures @only-current-scope forall m map[string]string in allocated :: !samemap(m, old(self.varScopes[len(self.varScopes)-1])) ==> samecontent(m, old(m))
+    ensures @declared haskey(self.varScopes[len(self.varScopes)-1], node.Ident.Ident())
+@*/
+
+/*@ func (self *Compiler) compileBlock
+    serves C01, C11, C15
+    assume-safety
+    assumepre compileStmt
+    split b2i(pushScope) in 0..1
+    requires self.scopesWF() && self.aligned()
+    ensures @scope-stack-balanced self.scopesWF() && len(self.varScopes) == old(len(self.varScopes)) && forall i in 0..len(self.varScopes) :: samemap(self.varScopes[i], old(self.varScopes[i]))
+    ensures @loop-stack-balanced len(self.loops) == old(len(self.loops))
+    ensures @same-function self.aligned() && self.currFn == old(self.currFn) && self.currModule == old(self.currModule) && samemap(self.modules, old(self.modules)) && self.CurrFn() == old(self.CurrFn())
+    ensures @only-current-scope forall m map[string]string in allocated :: !samemap(m, old(self.varScopes[len(self.varScopes)-1])) ==> samecontent(m, old(m))
+    ensures @own-scope pushScope ==> forall m map[string]string in allocated :: samecontent(m, old(m))
+    loop 1 invariant self.scopesWF() && self.aligned() && len(self.varScopes) == entry(len(self.varScopes)) && len(self.loops) == entry(len(self.loops)) && self.currFn == entry(self.currFn) && self.currModule == entry(self.currModule) && samemap(self.modules, entry(self.modules)) && self.CurrFn() == entry(self.CurrFn())
+    loop 1 invariant forall i in 0..len(self.varScopes) :: samemap(self.varScopes[i], entry(self.varScopes[i]))
+    loop 1 invariant forall m map[string]string in allocated :: !samemap(m, self.varScopes[len(self.varScopes)-1]) ==> samecontent(m, entry(m))
+@*/
+
+/*@ func (self *Compiler) compileStmt
+    serves C01, C11, C15
+    assume-safety
+    assumepre compileBlock
+    split node.Kind() in 0..10
+    requires node != nil && node.Kind() != ast.SingletonTypeDefinitionStatementKind
+    assert @for-scope-pushed after headIdentName := self.mangleVar(node.Identifier.Ident()) :: self.scopesWF() && len(self.varScopes) == old(len(self.varScopes))+1 && fresh(self.varScopes[len(self.varScopes)-1]) && forall m map[string]string in allocated :: samecontent(m, old(m))
+    assert @for-body-compiled after self.compileBlock(node.Body, false) :: self.scopesWF() && len(self.varScopes) == old(len(self.varScopes))+1 && fresh(self.varScopes[len(self.varScopes)-1]) && forall m map[string]string in allocated :: samecontent(m, old(m))
+    requires self.scopesWF() && self.aligned()
+    ensures @scope-stack-balanced self.scopesWF() && len(self.varScopes) == old(len(self.varScopes)) && forall i in 0..len(self.varScopes) :: samemap(self.varScopes[i], old(self.varScopes[i]))
+    ensures @loop-stack-balanced len(self.loops) == old(len(self.loops))
+    ensures @same-function self.aligned() && self.currFn == old(self.currFn) && self.currModule == old(self.currModule) && samemap(self.modules, old(self.modules)) && self.CurrFn() == old(self.CurrFn())
+    ensures @only-current-scope forall m map[string]string in allocated :: !samemap(m, old(self.varScopes[len(self.varScopes)-1])) ==> samecontent(m, old(m))
+    ensures @only-let-declares node.Kind() != ast.LetStatementKind ==> forall m map[string]string in allocated :: samecontent(m, old(m))
+    loop 1 invariant self.scopesWF() && self.aligned() && len(self.varScopes) == entry(len(self.varScopes)) && len(self.loops) == entry(len(self.loops)) && self.currFn == entry(self.currFn) && self.currModule == entry(self.currModule) && samemap(self.modules, entry(self.modules)) && self.CurrFn() == entry(self.CurrFn())
+    loop 1 invariant forall i in 0..len(self.varScopes) :: samemap(self.varScopes[i], entry(self.varScopes[i]))
+    loop 1 invariant forall m map[string]string in allocated :: samecontent(m, entry(m))
+@*/
